@@ -70,6 +70,9 @@ type recog struct {
 	update bool // update grammar
 	astOK  bool // the AST built so far is faithful
 	strict bool // every keyword was upper case (the sentence does not rely on case folding)
+	// pathCond: additionally accept a nested document path (at least one '.' or '[n]' step) where a
+	// condition is expected; usedPathCond reports that the derivation needed it
+	pathCond, usedPathCond bool
 }
 
 func (r *recog) peek() tok { return r.t[r.p] }
@@ -370,7 +373,27 @@ func (r *recog) primary() (*Cond, bool) {
 		}
 		return c, true
 	}
+	if r.pathCond && l.fn == "" && l.op.Kind == "path" && len(l.op.Path) >= 2 {
+		r.usedPathCond, r.astOK = true, false
+		return &Cond{Op: "pathcond"}, true
+	}
 	return nil, false // a bare operand is not a condition
+}
+
+// OnlyPathConditions reports that s is not a sentence of the condition grammar but becomes one when a
+// nested document path alone (a.b, a[0]) is admitted where a condition is expected - the one liberty
+// the minidyn evaluator takes by design of its own test suite (a path that leads to a BOOL).
+func OnlyPathConditions(s string, names map[string]string) bool {
+	if ok, _, _ := RecognizeCond(s, names); ok {
+		return false
+	}
+	toks, ok := lexAll(s)
+	if !ok {
+		return false
+	}
+	r := &recog{t: toks, names: names, astOK: true, strict: true, pathCond: true}
+	_, ok = r.cond()
+	return ok && r.peek().kind == "eof" && r.usedPathCond
 }
 
 // RecognizeCond reports whether s is a sentence of the liberal condition grammar. When it is
